@@ -47,10 +47,23 @@ ASSUMPTIONS = [
     'Kernels are entered with fesetround set to the mode of their top-level context (FE_TONEAREST when it names none), the documented '
     'precondition of emitted code; the driver also checks that the mode is restored on return (documented postcondition).',
     'Under INTEGER (unsafe_cast_int=True: "assuming no overflow") the generator keeps every exact intermediate within int64.',
+    'Open choice, resolved either way and counted (skipped: open-choice:rtn-exact-zero-sign): the sign of an exactly-zero sum, '
+    'difference or fma under round-toward-negative -- the interpreter returns +0, IEEE 754-2019 6.3 (and the hardware the compiled '
+    'code runs on) returns -0.  A mismatching input is re-evaluated with an engine front-end that applies the IEEE rule to exact-zero '
+    'add/sub/fma results only; the compiled result must then agree bit for bit.',
+    'The sign of a NaN is not observed (the statement says NaN for NaN): the sign operand of copysign and the operand of signbit are '
+    'guarded against NaN by construction (x86 invalid operations produce a negative quiet NaN, the interpreter a positive one).',
+    'make_op_table() is memoised per worker process (a pure function rebuilt by every CppEmitter); nothing else in the tree is touched.',
 ]
 EXHAUSTIVE = {'quick': False, 'thorough': False}
-FLOORS = {'accepted-any': 0.5}
-MAXTASKS = 1
+# generator health: acceptance (absolute program counts), context sensitivity (fraction of evaluations), aliasing class
+FLOORS = {
+    'quick': {'accepted-any': 85, 'accepted-all-12': 25, 'accepted:O1-STRICT-A1': 30, 'ctx-sensitive': 0.25,
+              'programs-ctx-sensitive': 50, 'programs-callee-writes-aliased-list': 8},
+    'thorough': {'accepted-any': 2000, 'accepted-all-12': 600, 'accepted:O1-STRICT-A1': 700, 'ctx-sensitive': 0.25,
+                 'programs-ctx-sensitive': 1200, 'programs-callee-writes-aliased-list': 200},
+}
+MAXTASKS = None
 
 # The op table is a pure function of nothing and is rebuilt by every CppEmitter (~0.1 s, a third of the
 # compile cost here); build it once per process.  The table itself is still the tree's.
@@ -608,6 +621,8 @@ class Prepared:
                         asif = [v for v, vt in sorted(self.variants[j].items())
                                 if repr(vt) != repr(self.expected[j]) and compare(vt, got_tree) is None]
                         key = f'wrong-{mm}' + (f'/as-if-{"+".join(asif)}' if asif else '')
+                        if re.search(r'for [^\n]* in (zip|enumerate)\(', case['src']):
+                            key += '/zip-enumerate-loop'
                         got = show_tree(got_tree)
                 f = failing.setdefault(key, [[], got])
                 f[0] += opts
@@ -691,7 +706,7 @@ def require_gxx():
 
 
 def shards(tier, seed):
-    n_shards = 160 if tier == 'thorough' else 16
+    n_shards = 120 if tier == 'thorough' else 16
     per = 30 if tier == 'thorough' else 9
     return [('gen', i, per, seed, tier) for i in range(n_shards)]
 
